@@ -416,7 +416,7 @@ class QueueGenerator(sg.SproutCandidatesGenerator):
                 if not deme.is_active:
                     continue
                 q = self.decisions.proposals
-                idxs = q.pop(0) if q else []
+                idxs = q.pop(0) if q else [0]  # nothing queued for this deme: propose its first individual
                 pop = deme.current_population
                 chosen, seen = [], set()
                 for j in idxs:
